@@ -895,6 +895,43 @@ func (g *TxGen) proposal(t *rapid.T) *governance.ProposalContent {
 	return pc
 }
 
+// GenRefusedParameterChange builds a governance.SubmitProposal by an account that can afford the deposit, carrying a
+// staking parameter change that later transactions of the same block would notice (transfers disabled, a huge minimum
+// transact balance, ...) together with a change that makes the resulting parameter set INVALID: the proposal passes
+// authentication and every governance check and is refused by the module it concerns. nil when nobody can afford it.
+func (g *TxGen) GenRefusedParameterChange(t *rapid.T) *TxDesc {
+	var rich []*Actor
+	for _, x := range g.Actors {
+		if bal := g.V.Account(x.Addr).General.Balance.ToBigInt(); bal.IsUint64() && bal.Uint64() >= g.W.Spec.GovMinDeposit+g.W.Spec.MinTransact+2000 {
+			rich = append(rich, x)
+		}
+	}
+	if len(rich) == 0 {
+		return nil
+	}
+	a := rich[rapid.IntRange(0, len(rich)-1).Draw(t, "refusedPropSigner")]
+	acct := g.V.Account(a.Addr)
+	yes := true
+	ch := staking.ConsensusParameterChanges{}
+	switch rapid.IntRange(0, 3).Draw(t, "refusedPropKind") {
+	case 0:
+		ch.DisableTransfers = &yes
+	case 1:
+		v := q(1 << 40)
+		ch.MinTransactBalance = &v
+	case 2:
+		ch.DisableDelegation = &yes
+	default:
+		v := q(uint64(rapid.IntRange(1, 50).Draw(t, "refusedPropMinTransfer")))
+		ch.MinTransferAmount = &v
+	}
+	over := q(uint64(100_001 + rapid.IntRange(0, 5).Draw(t, "refusedPropOverUnity")))
+	ch.MinCommissionRate = &over
+	pc := &governance.ProposalContent{Metadata: &governance.ProposalMetadata{Title: "verif proposal", Description: "generated"},
+		ChangeParameters: &governance.ChangeParametersProposal{Module: staking.ModuleName, Changes: cbor.Marshal(ch)}}
+	return g.finish(t, a, acct, governance.MethodSubmitProposal, pc, "proposal", "change-parameters:staking+block-visible+invalid-result")
+}
+
 // GenVaultSubcallGas builds (when a vault with a known admin exists) a vault.AuthorizeAction by one of the vault's
 // admins that carries an ExecuteMessage action - a call into the staking application - with a gas limit drawn around
 // the point where the vault's own operation is paid for and the inner call runs out: every exhaustion point includes
